@@ -14,6 +14,49 @@ from . import ext
 
 class CallMixin:
 
+    def _next_loop(self, node):
+        """next((elt for x in it if c), default)  ==  for x in it: if c: result = elt; break   else default / StopIteration"""
+        tree = getattr(node, '_desugared', None)
+        var = f'__next_{node.lineno}_{node.col_offset}'
+        flag = var + '_found'
+        if tree is None:
+            g = node.args[0].generators[0]
+            hit = [ast.Assign(targets=[ast.Name(id=var, ctx=ast.Store())], value=node.args[0].elt),
+                   ast.Assign(targets=[ast.Name(id=flag, ctx=ast.Store())], value=ast.Constant(value=True)), ast.Break()]
+            body = hit
+            for cond in reversed(g.ifs):
+                body = [ast.If(test=cond, body=body, orelse=[])]
+            loop = ast.For(target=g.target, iter=g.iter, body=body, orelse=[])
+            init = [ast.Assign(targets=[ast.Name(id=var, ctx=ast.Store())], value=ast.Constant(value=None)),
+                    ast.Assign(targets=[ast.Name(id=flag, ctx=ast.Store())], value=ast.Constant(value=False))]
+            tree = init + [loop]
+            for t in tree:
+                ast.copy_location(t, node)
+                ast.fix_missing_locations(t)
+                for n in ast.walk(t):
+                    for ch in ast.iter_child_nodes(n):
+                        ch._parent = n
+            fi = self.prog.node_owner.get(id(node))
+            if fi is not None:
+                for t in tree:
+                    for n in ast.walk(t):
+                        self.prog.node_owner.setdefault(id(n), fi)
+            node._desugared = tree
+        fr = self.frames[-1]
+        tnames = [n.id for n in ast.walk(node.args[0].generators[0].target) if isinstance(n, ast.Name)]
+        saved = {n: fr.locals[n] for n in tnames if n in fr.locals}
+        self.exec_block(tree)
+        r = fr.locals.pop(var, ConstV(None))
+        found = fr.locals.pop(flag, ConstV(False))
+        for n in tnames:
+            fr.locals.pop(n, None)
+        fr.locals.update(saved)
+        if self.truth(found):
+            return r
+        if len(node.args) == 2:
+            return self.eval(node.args[1])
+        raise Raised(ExcV(StopIteration, [], node=node, stack=self.stack, op='next() of an exhausted generator', definite=True))
+
     def _anyall_loop(self, node):
         """any(f(x) for x in it)  ==  for x in it: if f(x): result = True; break   (the calls may have effects)"""
         tree = getattr(node, '_desugared', None)
@@ -61,6 +104,10 @@ class CallMixin:
                 and not self.nofork and any(isinstance(n, ast.Call) for n in ast.walk(node.args[0].elt)) \
                 and not any(node.func.id in f.locals for f in self.frames[-1:]):
             return self._anyall_loop(node)
+        if isinstance(node.func, ast.Name) and node.func.id == 'next' and len(node.args) in (1, 2) and not node.keywords \
+                and isinstance(node.args[0], ast.GeneratorExp) and len(node.args[0].generators) == 1 and not self.nofork \
+                and 'next' not in self.frames[-1].locals:
+            return self._next_loop(node)
         fv = self.eval(node.func)
         args = []
         for a in node.args:
